@@ -49,7 +49,10 @@ def handle (j : Json) : Json :=
       let cells := r.flatMap fun n1 => r.flatMap fun n2 => r.flatMap fun m1 => r.map fun m2 =>
         (n1, n2, m1, m2)
       let tm := cells.map fun (n1, n2, m1, m2) => gqToJson (tm2 U nmax n1 n2 m1 m2)
-      let pa := cells.map fun (n1, n2, m1, m2) => gqToJson (pamp U [n1, n2] [m1, m2])
+      -- the permanent only where the theorem speaks (n1 + n2 ≤ nmax): beyond, the tensor is empty and a
+      -- permanent of up to 2·nmax photons would be evaluated for nothing
+      let pa := cells.map fun (n1, n2, m1, m2) =>
+        gqToJson (if n1 + n2 ≤ nmax then pamp U [n1, n2] [m1, m2] else 0)
       return Json.mkObj [("tm2", Json.arr tm.toArray), ("pamp", Json.arr pa.toArray)]
     | "mps1" =>
       let U ← squareOf (← j.getObjVal? "U") 1
